@@ -52,18 +52,23 @@ def A_palette(m, n, seed=0, seeded=True):
 
 def bounds_menu(n):
     k = np.arange(n)
+    mixed = np.where(k % 2 == 1, 0.25 + k / 8.0, 0.0)  # zero and positive lower bounds in one system
+    if n == 1:
+        mixed = np.array([0.375])
     return [
-        ("ub-finite", None if False else 0.0 * k, 1.0 + k / 4.0),
+        ("ub-finite", 0.0 * k, 1.0 + k / 4.0),
         ("lb-pos", 0.25 + k / 8.0, 0.25 + k / 8.0 + 1.0 + k / 4.0),
         ("scalar", 0.125, 2.0),
         ("default", None, None),
+        ("lb-mixed", mixed, mixed + 1.5 - k / 8.0),
     ]
 
 
 def K_menu(m):
     i = np.arange(m)
     vec = 0.5 + 0.375 * i
-    off = 0.125 * (np.ones((m, m)) - np.eye(m))
+    # deliberately NOT symmetric: upper off-diagonals 0.125, lower 0.25 (+ a gradient)
+    off = np.triu(np.full((m, m), 0.125), 1) + np.tril(np.full((m, m), 0.25), -1) * (1 + 0.25 * np.arange(m))[None, :]
     menu = [("default", None), ("scalar", 0.5), ("vector", vec)]
     if m >= 2:
         menu.append(("matrix-pos", np.diag(vec) + off))
